@@ -356,7 +356,7 @@ pub fn run(ctx: &Ctx) -> PropResult {
     let mut out = run_workloads(ctx, wls);
     out.rec.nontrivial_counter += n_every / 60; // one per (schedule, start hour): distinct by construction
     let mut meta = PropMeta::default();
-    meta.rule = "histories of 4–40 next() calls on one CronSchedule with the clock pinned (second granularity) and advanced between calls by {0, <60 s, <10 min, exactly to the last result, last result ∓1 min, somewhere before the last result, jumps of hours…a year}; starts stratified over years 1–9999 (month ends, Feb 27–Mar 1 of leap/common/century years, Dec 31→Jan 1, seconds 0/1/59); 20 hand-picked schedules (leap-day only — also late in the day, the longest searches —, 31st only, dom OR dow, year end…) and grammar-generated ones; satisfiable schedules only. Each event {clock, returned instant} is checked online against the model's earliest matching minute after max(previous result, current minute) (which implies strictly increasing, no skip, no repeat), zero seconds/nanoseconds, UTC; a copy taken at a random step — with clone(), or with clone_from() over an unrelated used schedule — must return the same results from then on. In addition EVERY start minute of a window (quick: Feb 20–Mar 10 2024, Dec 25–Jan 5, Feb 26–Mar 2 2100; thorough: all of 2024, Feb–Mar 2100, Dec 1999–Mar 2000) at second 0/59 is used as the clock for one next() of a fresh schedule and compared with the model. Non-trivial = every history; distinct by hash of (expression, start). Start years include the era boundary and years before year 1, and the 8-year gaps between leap days around 1900, 2100, 2200, 2300 (and the 4-year ones around 2000, 2400).".into();
+    meta.rule = "histories of 4–40 next() calls on one CronSchedule with the clock pinned (second granularity) and advanced between calls by {0, <60 s, <10 min, exactly to the last result, last result ∓1 min, somewhere before the last result, jumps of hours…a year}; starts stratified over years 1–9999 (month ends, Feb 27–Mar 1 of leap/common/century years, Dec 31→Jan 1, seconds 0/1/59); 20 hand-picked schedules (leap-day only — also late in the day, the longest searches —, 31st only, dom OR dow, year end…) and grammar-generated ones; satisfiable schedules only. Each event {clock, returned instant} is checked online against the model's earliest matching minute after max(previous result, current minute) (which implies strictly increasing, no skip, no repeat), zero seconds/nanoseconds, UTC; a copy taken at a random step — with clone(), or with clone_from() over an unrelated used schedule — must return the same results from then on. In addition EVERY start minute of a window (quick: Feb 20–Mar 10 2024, Dec 25–Jan 5, Feb 26–Mar 2 2100; thorough: all of 2024, Feb–Mar 2100, Dec 1999–Mar 2000) at second 0/59 is used as the clock for one next() of a fresh schedule and compared with the model. Non-trivial = every history; distinct by hash of (expression, start). Start years include the era boundary and years before year 1, and the 8-year gaps between leap days around 1900, 2100, 2200, 2300 (and the 4-year ones around 2000, 2400). Copies are taken with clone() or with clone_from() over an unrelated, already used schedule; leap-day-only schedules late in the day (59 23 29 2 *) are among the fixed ones.".into();
     meta.required_bins = vec![
         "carry/minute", "carry/hour", "carry/day", "carry/month", "carry/year", "days/dom-and-dow-restricted", "days/dom-restricted", "days/dow-restricted", "days/unrestricted",
         "clock/unchanged", "clock/exactly-at-last-result", "clock/last-result-minus-1min", "clock/last-result-plus-1min", "clock/jump-hours-to-years", "clock/behind-last-result", "clone/compared", "result/leap-day",
